@@ -23,6 +23,8 @@ ASSUMPTIONS = [
     "corrected coordinates (x*k, cp*k); tolerance 1e-9 of the force range (cp/k*k round trip)",
     "weights are measured in corrected coordinates: w = min(|k*(x - cp)| / weight_cp, 1)",
     "chi-square tolerance rtol 1e-9 (summation order)",
+    "fixed parameters must be bit-equal to their initial values, except a fixed contact point with k != 1, "
+    "which is allowed 4 ulp for the multiply/divide round trip through corrected coordinates",
     "for an unsuccessful fit only what the statement says is asserted: success False, both columns all NaN",
 ]
 
@@ -145,7 +147,9 @@ def check_case(case, ctx):
         if expr:
             continue
         if not vary:
-            ctx.check(p.value == v0, "fixed-parameter-changed", dict(desc, param=name),
+            # the contact point makes a *k ... /k round trip through corrected coordinates
+            slack = 4 * np.spacing(abs(v0)) if (name == "contact_point" and k != 1) else 0.0
+            ctx.check(abs(p.value - v0) <= slack, "fixed-parameter-changed", dict(desc, param=name),
                       f"{name} fixed at {v0!r} reported as {p.value!r}")
         else:
             ctx.check(mn <= p.value <= mx, "parameter-out-of-bounds", dict(desc, param=name, k1=(k == 1)),
